@@ -5,7 +5,13 @@ repaired tree as they are NOW, and record the result in seeded/<id>/meta.json ("
 import json, os, shutil, subprocess, sys, time
 
 root = os.path.join(os.path.dirname(os.path.abspath(__file__)), "seeded")
-ids = sys.argv[1:] or sorted(os.listdir(root))
+args = sys.argv[1:]
+other = None
+if "--check" in args:  # run ANOTHER property's check against the change (recorded as final_pass_<Cxx>)
+    i = args.index("--check")
+    other = args[i + 1]
+    del args[i:i + 2]
+ids = args or sorted(os.listdir(root))
 vcommit = subprocess.check_output(["git", "-C", "/verif", "log", "--format=%h", "-1"]).decode().strip()
 rcommit = subprocess.check_output(["git", "-C", "/repo", "log", "--format=%h", "-1"]).decode().strip()
 for sid in ids:
@@ -14,7 +20,7 @@ for sid in ids:
     if not os.path.exists(mf):
         continue
     meta = json.load(open(mf))
-    prop = meta["breaks_property"]
+    prop = other or meta["breaks_property"]
     wt = f"/tmp/fp_{os.getpid()}"
     subprocess.check_call(["git", "-C", "/repo", "worktree", "add", "-q", "--detach", wt, "HEAD"])
     res = {"verif_commit": vcommit, "repo_commit": rcommit, "check": prop}
@@ -35,6 +41,6 @@ for sid in ids:
             if f.endswith(".json"):
                 os.makedirs("/verif/.work/mutant_replays", exist_ok=True)
                 shutil.move(os.path.join("/verif/replays", f), os.path.join("/verif/.work/mutant_replays", f))
-    meta["final_pass"] = res
+    meta["final_pass" if other is None else f"final_pass_{other}"] = res
     json.dump(meta, open(mf, "w"), indent=1)
     print(sid, prop, "applies" if res.get("applies") else "DOES-NOT-APPLY", "detected" if res.get("detected") else "NOT-detected", res.get("wall_s"), flush=True)
